@@ -28,9 +28,95 @@ TEMPLATE = [
 ]
 
 
+def _range_tabulate(ctx, m) -> bool | None:
+    """RANGE.tabulated: Interval.range / __iter__ / __contains__ run by the checker's interpreter (generators evaluated eagerly) on
+    interval stubs whose bounds are values of the wall-clock / calendar world (rules/wallstub.py; add() / subtract() of the bounds
+    are the primitives C03/C04 decide): forward, inverted and inverted-absolute intervals of dates and datetimes, units
+    years..seconds, amounts 1, 2, 3, 7, starts at month ends and leap days, ends that are and are not reachable.  Expected:
+    start, start +- amount, start +- 2*amount, ... each computed from the start (so the month-end clamp never accumulates), as
+    long as the value is not beyond the end; membership is start <= x <= end."""
+    import datetime as _dt
+    import operator
+    from ..rules import minieval, wallstub
+    dm, dam = pmod("datetime"), pmod("date")
+    meths = m.methods("Interval")
+    props = {k for k, f in meths.items() if any(core.dotted(d) == "property" for d in f.decorator_list)}
+    cases = []
+    D = _dt.datetime
+    for a, b, unit, amt in [(D(2021, 1, 31), D(2021, 6, 30), "months", 1), (D(2021, 1, 31), D(2021, 7, 31), "months", 2), (D(2020, 2, 29), D(2028, 2, 29), "years", 1),
+                            (D(2020, 2, 29), D(2027, 3, 1), "years", 3), (D(2021, 3, 1), D(2021, 3, 22), "weeks", 1), (D(2021, 3, 1), D(2021, 3, 10), "days", 1),
+                            (D(2021, 3, 1), D(2021, 3, 10), "days", 3), (D(2021, 3, 1), D(2021, 3, 1), "days", 1), (D(2021, 12, 29), D(2022, 1, 3), "days", 2),
+                            (D(2021, 3, 1, 22), D(2021, 3, 2, 3), "hours", 1), (D(2021, 3, 1, 22), D(2021, 3, 2, 3, 30), "hours", 2), (D(2021, 3, 1, 0, 0), D(2021, 3, 1, 0, 5), "minutes", 1),
+                            (D(2021, 3, 1, 0, 0, 58), D(2021, 3, 1, 0, 1, 2), "seconds", 1), (D(2021, 8, 31), D(2022, 3, 31), "months", 1), (D(2021, 1, 30, 12), D(2021, 4, 30, 11), "months", 1)]:
+        cases.append(("DateTime", a, b, unit, amt))
+    for a, b, unit, amt in [(D(2021, 1, 31), D(2021, 6, 30), "months", 1), (D(2020, 2, 29), D(2024, 2, 29), "years", 1), (D(2021, 3, 1), D(2021, 3, 10), "days", 1),
+                            (D(2021, 3, 1), D(2021, 3, 10), "days", 7), (D(2021, 12, 1), D(2022, 2, 9), "weeks", 2)]:
+        cases.append(("Date", a, b, unit, amt))
+    bad, n = [], 0
+
+    def shift(w, unit, k):
+        import calendar
+        if unit in ("years", "months"):
+            mi = w.year * 12 + w.month - 1 + (12 * k if unit == "years" else k)
+            y, mo = divmod(mi, 12)
+            return w.replace(year=y, month=mo + 1, day=min(w.day, calendar.monthrange(y, mo + 1)[1]))
+        return w + _dt.timedelta(**{unit: k})
+    try:
+        for cls, a, b, unit, amt in cases:
+            wm = dm if cls == "DateTime" else dam
+            wld = wallstub.World(wm, cls, extra=dam.methods("Date") if cls == "DateTime" else None)
+            val = (lambda w: wld.datetime(w, 1)) if cls == "DateTime" else (lambda w: wld.date(w.date()))
+            key = (lambda o: vars(o)["_wall"]) if cls == "DateTime" else (lambda o: _dt.datetime.combine(vars(o)["_date"], _dt.time()))
+            for mode in ("forward", "inverted", "inverted-absolute"):
+                if mode == "forward":
+                    s0, e0, inv, ab = a, b, False, False
+                elif mode == "inverted":
+                    s0, e0, inv, ab = b, a, True, False
+                else:
+                    s0, e0, inv, ab = a, b, True, True        # the constructor has swapped the bounds of an absolute interval
+                glob = {"operator": minieval.Stub(le=operator.le, ge=operator.ge, lt=operator.lt, gt=operator.gt), "Iterator": None}
+                funcs = {st.name: st for st in m.top() if isinstance(st, ast.FunctionDef)}
+                iv = minieval.Obj(_methods=meths, _props=props, _ctor=None, _natives={}, start=val(s0), end=val(e0), _start=val(s0), _end=val(e0),
+                                  _absolute=ab, _invert=inv, invert=inv, absolute=ab)
+                sign = -1 if (inv and not ab) else 1
+                want, k = [], 0
+                while True:
+                    v = shift(s0, unit, sign * k * amt)
+                    if (v > e0) if sign > 0 else (v < e0):
+                        break
+                    want.append(v)
+                    k += 1
+                label = f"{cls} interval {s0.isoformat(' ')} .. {e0.isoformat(' ')} ({mode}).range({unit!r}, {amt})"
+                n += 1
+                got = minieval.call(meths["range"], [iv, unit, amt], {}, {**funcs, "$globals": glob})
+                gk = [key(o) for o in got]
+                if gk != want:
+                    bad.append(f"{label}: {[x.isoformat(' ') for x in gk][:6]}{'...' if len(gk) > 6 else ''} ({len(gk)} values; expected {[x.isoformat(' ') for x in want][:6]}{'...' if len(want) > 6 else ''}, {len(want)} values)")
+                if unit == "days" and amt == 1 and "__iter__" in meths:
+                    n += 1
+                    it = minieval.call(meths["__iter__"], [iv], {}, {**funcs, "$globals": glob})
+                    if [key(o) for o in it] != want:
+                        bad.append(f"{label}: iterating the interval gives {len(it)} values, range('days') {len(want)}")
+                if "__contains__" in meths and mode != "inverted":
+                    for probe, inside in ((s0, True), (e0, True), (s0 - _dt.timedelta(days=1), False), (e0 + _dt.timedelta(days=1), False), (s0 + (e0 - s0) / 2, True)):
+                        n += 1
+                        r = minieval.call(meths["__contains__"], [iv, val(probe)], {}, {**funcs, "$globals": glob})
+                        if bool(r) != inside and cls == "DateTime":
+                            bad.append(f"{label}: `{probe.isoformat(' ')} in interval` is {r}")
+    except wallstub.ERRORS + (ValueError,) as e:
+        ctx.unverified("RANGE.tabulated", "Interval.range", f"outside the checker's interpreter: {type(e).__name__}: {e}", m.loc(meths["range"]))
+        return None
+    ctx.ob("RANGE.tabulated", "Interval.range", not bad, f"{n} (interval, unit, amount) evaluations: " + (f"wrong: {bad[:2]}" if bad else
+           "start, start +- amount, start +- 2*amount ... each from the start, up to and including a reachable end; iteration by days; membership"), m.loc(meths["range"]))
+    if not bad:
+        ctx.established(("RANGE.shape", "RANGE.no-drift", "RANGE.step", "RANGE.order", "RANGE.bound", "RANGE.pairing", "RANGE.iter", "RANGE.contains"), "Interval.", "RANGE.tabulated")
+    return not bad
+
+
 def run(ctx) -> None:
     ctx.explanation = EXPLANATION
     m = pmod("interval")
+    ctx.step(_range_tabulate, ctx, m)
     fn = m.func("Interval.range")
     loops = [n for n in core.walk_fn(fn) if isinstance(n, ast.While)]
     # a loop written as `while True:` with an early exit, or a direction taken from a helper, is another shape of the same
